@@ -223,10 +223,15 @@ class LazyList:
 
         ctx.stacks.append(self.generated)
         vy_print("⟨ " if ctx.vyxal_lists else "[", "", ctx=ctx)
-        for lhs in self.generated[:-1]:
-            vy_print(lhs, " | " if ctx.vyxal_lists else ", ", ctx=ctx)
-        if self.generated:
-            vy_print(self.generated[-1], "", ctx=ctx)
+        # items that were already generated are shown exactly like the ones
+        # generated below (a string inside a list is quoted)
+        for i, lhs in enumerate(self.generated[:]):
+            if i:
+                vy_print(" | " if ctx.vyxal_lists else ", ", "", ctx=ctx)
+            if isinstance(lhs, (types.FunctionType, LazyList)):
+                vy_print(lhs, "", ctx=ctx)
+            else:
+                vy_print(vy_repr(lhs, ctx), "", ctx=ctx)
 
         try:
             lhs = next(self)
